@@ -87,7 +87,7 @@ fn any_map() -> Map4 {
 fn any_duration() -> Duration {
     let secs: u64 = kani::any();
     let nanos: u32 = kani::any();
-    kani::assume(secs < (1u64 << 40) && nanos < 1_000_000_000);
+    kani::assume(secs < (1u64 << 23) && nanos < 1_000_000_000);
     Duration::new(secs, nanos)
 }
 
